@@ -22,4 +22,17 @@ for k in ("lib", "bin"):
 if "--functions" in sys.argv:
     json.dump(sorted(names), open(os.path.join(V, "rules", "known_functions.json"), "w"), indent=0)
 json.dump(params, open(os.path.join(V, "rules", "known_params.json"), "w"), indent=0, sort_keys=True)
+# signatures (for rename detection, rules/rename.py): functions with return type; crate ADTs with variants and field (name, type) lists
+sigs = {"fns": {}, "adts": {}}
+for k in ("lib", "bin"):
+    p = C.Program(fx[k], k)
+    for b in p.bodies.values():
+        if b.kind == "Closure":
+            continue
+        sigs["fns"].setdefault(k, {})[b.name] = {"params": [b.locals[l]["ty"] for l in range(1, b.arg_count + 1)], "ret": b.locals[0]["ty"], "kind": b.kind}
+    for a in fx[k]["adts"]:
+        if a["path"].startswith(fx[k]["crate"] + "::") or a["path"].startswith("txtpp::"):
+            sigs["adts"].setdefault(k, {})[a["path"]] = {"kind": a["kind"], "variants": [
+                {"name": v["name"], "fields": [[f["name"], f["ty"]] for f in v["fields"]]} for v in a["variants"]]}
+json.dump(sigs, open(os.path.join(V, "rules", "known_sigs.json"), "w"), indent=0, sort_keys=True)
 print(len(names), "functions,", sum(len(v) for v in params.values()), "parameters")
